@@ -31,6 +31,7 @@ import Gotlcp.Lemmas.CodecEmitted
 import Gotlcp.Lemmas.CodecMake
 import Gotlcp.Model.CodecParams
 import Gotlcp.Tie.UnmarshalTlcpCodec
+import Gotlcp.Tie.UnmarshalDtlcpCodec
 
 set_option linter.unusedSimpArgs false
 set_option linter.unusedVariables false
@@ -1000,5 +1001,123 @@ example : unmarshalCertificate codesT (abs [11, 0, 0, 12, 0, 0, 9, 0, 0, 2, 0xaa
     = .ok ⟨[[0xaa, 0xbb], [0xcc]]⟩ := by decide
 
 end SrcTlcp
+
+/-! ## The translated source text of the hand-written dtlcp decoders computes what the model computes
+
+`Gotlcp.Src.dtlcp.*` is regenerated from dtlcp/handshake_messages.go by `harness/cmd/go2lean` on
+every run.  `Gotlcp.Tie.UnmarshalDtlcpCodec` proves, by loop invariants that simulate the model's
+loops (`certCount`, `certSplit`, `casLoop`) step by step, that for EVERY receiver value and EVERY
+byte string the translated function returns `(m', true)` with the three header fields and the body
+fields the model decodes exactly when `Model.CodecDtlcp.decK codesD` accepts, `(m', false)` exactly
+when it refuses, and never panics: C14_total_K_dtlcp, C14_strict_K_dtlcp, C14_reencode_K_dtlcp,
+C14_roundtrip_K_dtlcp above, stated about the model, hold of the source text. -/
+
+section SrcDtlcp
+open Gotlcp.Tie.UnmarshalDtlcpCodec
+
+/-- the literals in the translated text (message types 11, 12, 13, 14, 16; header length 12) are the
+regenerated facts the model is instantiated with, and all five decoders are in the guarded list -/
+theorem C14_src_codes_dtlcp :
+    Src.untranslated = [] ∧
+    u8 codesD.tCertificate = UInt8.ofBitVec 11#8 ∧ u8 codesD.tServerKeyExchange = UInt8.ofBitVec 12#8 ∧
+    u8 codesD.tCertificateRequest = UInt8.ofBitVec 13#8 ∧ u8 codesD.tServerHelloDone = UInt8.ofBitVec 14#8 ∧
+    u8 codesD.tClientKeyExchange = UInt8.ofBitVec 16#8 ∧ codesD.hl = 12 ∧
+    codesD.complete.contains codesD.tCertificate = true ∧ codesD.complete.contains codesD.tServerKeyExchange = true ∧
+    codesD.complete.contains codesD.tCertificateRequest = true ∧
+    codesD.complete.contains codesD.tServerHelloDone = true ∧
+    codesD.complete.contains codesD.tClientKeyExchange = true := by
+  decide
+
+/-- `dtlcpIsCompleteMessage`: translated text = model, every byte string, every type code -/
+theorem C14_src_isComplete_dtlcp (data : List (BitVec 8)) (t : BitVec 8) (T : Nat) (hT : u8 T = UInt8.ofBitVec t) :
+    ∃ b, Src.dtlcp.dtlcpIsCompleteMessage data t = .ok b ∧
+      Model.CodecDtlcp.isCompleteMessage 12 (Tie.UnmarshalDtlcpCodec.abs data) T = .ok b :=
+  ⟨_, isComplete_eq data t, Tie.UnmarshalDtlcpCodec.model_isComplete data t T hT⟩
+
+/-- `certificateMsg.unmarshal`: accepted with the model's header fields and certificate list, or
+refused like the model -/
+theorem C14_src_certificate_dtlcp (m : Src.dtlcp.certificateMsg) (data : List (BitVec 8)) :
+    Tie.UnmarshalDtlcpCodec.Agree
+      (fun m' => (hdrView m'.messageSeq m'.fragmentOffset m'.fragmentLength,
+                  (⟨m'.certificates.map Tie.UnmarshalDtlcpCodec.abs⟩ : Certificate)))
+      (Src.dtlcp.certificateMsg.unmarshal m data)
+      (Model.CodecDtlcp.decCertificate codesD (Tie.UnmarshalDtlcpCodec.abs data)) :=
+  Tie.UnmarshalDtlcpCodec.tie_codec_certificate m data
+
+/-- `certificateRequestMsg.unmarshal`: header fields, certificate types and CA names -/
+theorem C14_src_certificateRequest_dtlcp (m : Src.dtlcp.certificateRequestMsg) (data : List (BitVec 8)) :
+    Tie.UnmarshalDtlcpCodec.Agree
+      (fun m' => (hdrView m'.messageSeq m'.fragmentOffset m'.fragmentLength,
+                  (⟨Tie.UnmarshalDtlcpCodec.abs m'.certificateTypes,
+                    m'.certificateAuthorities.map Tie.UnmarshalDtlcpCodec.abs⟩ : CertificateRequest)))
+      (Src.dtlcp.certificateRequestMsg.unmarshal m data)
+      (Model.CodecDtlcp.decCertificateRequest codesD (Tie.UnmarshalDtlcpCodec.abs data)) :=
+  Tie.UnmarshalDtlcpCodec.tie_codec_certificateRequest m data
+
+/-- `serverKeyExchangeMsg.unmarshal`: header fields and the key blob -/
+theorem C14_src_serverKeyExchange_dtlcp (m : Src.dtlcp.serverKeyExchangeMsg) (data : List (BitVec 8)) :
+    Tie.UnmarshalDtlcpCodec.Agree
+      (fun m' => (hdrView m'.messageSeq m'.fragmentOffset m'.fragmentLength,
+                  (⟨Tie.UnmarshalDtlcpCodec.abs m'.key⟩ : Blob)))
+      (Src.dtlcp.serverKeyExchangeMsg.unmarshal m data)
+      (Model.CodecDtlcp.decServerKeyExchange codesD (Tie.UnmarshalDtlcpCodec.abs data)) :=
+  Tie.UnmarshalDtlcpCodec.tie_codec_serverKeyExchange m data
+
+/-- `clientKeyExchangeMsg.unmarshal`: header fields and the ciphertext blob -/
+theorem C14_src_clientKeyExchange_dtlcp (m : Src.dtlcp.clientKeyExchangeMsg) (data : List (BitVec 8)) :
+    Tie.UnmarshalDtlcpCodec.Agree
+      (fun m' => (hdrView m'.messageSeq m'.fragmentOffset m'.fragmentLength,
+                  (⟨Tie.UnmarshalDtlcpCodec.abs m'.ciphertext⟩ : Blob)))
+      (Src.dtlcp.clientKeyExchangeMsg.unmarshal m data)
+      (Model.CodecDtlcp.decClientKeyExchange codesD (Tie.UnmarshalDtlcpCodec.abs data)) :=
+  Tie.UnmarshalDtlcpCodec.tie_codec_clientKeyExchange m data
+
+/-- `serverHelloDoneMsg.unmarshal`: header fields, empty body -/
+theorem C14_src_serverHelloDone_dtlcp (m : Src.dtlcp.serverHelloDoneMsg) (data : List (BitVec 8)) :
+    Tie.UnmarshalDtlcpCodec.Agree
+      (fun m' => (hdrView m'.messageSeq m'.fragmentOffset m'.fragmentLength, ()))
+      (Src.dtlcp.serverHelloDoneMsg.unmarshal m data)
+      (Model.CodecDtlcp.decServerHelloDone codesD (Tie.UnmarshalDtlcpCodec.abs data)) :=
+  Tie.UnmarshalDtlcpCodec.tie_codec_serverHelloDone m data
+
+/-- `dtlcpWriteHeader` on a destination of at least 12 bytes writes the model's header bytes -/
+theorem C14_src_writeHeader_dtlcp (dst : List (BitVec 8)) (h : 12 ≤ dst.length) (t : BitVec 8) (bodyLen : Nat)
+    (seq : BitVec 16) (fo fl : BitVec 32) :
+    ∃ r, Src.dtlcp.dtlcpWriteHeader dst t (bodyLen : Int) seq fo fl = .ok r ∧
+      Tie.UnmarshalDtlcpCodec.abs r =
+        Model.CodecDtlcp.writeHeader t.toNat bodyLen (W16.ofNat seq.toNat) fo.toNat fl.toNat ++
+          Tie.UnmarshalDtlcpCodec.abs (dst.drop 12) :=
+  Tie.UnmarshalDtlcpCodec.tie_codec_writeHeader dst h t bodyLen seq fo fl
+
+/-- consequence, as an instance of how the model theorems transfer: whatever the TRANSLATED dtlcp
+certificate decoder accepts, the model decoder accepts with the same header and list (so
+`C14_strict_certificate_dtlcp`, `C14_reencode_certificate_dtlcp` apply to it) -/
+theorem C14_src_accept_is_model_accept_certificate_dtlcp (m m' : Src.dtlcp.certificateMsg) (data : List (BitVec 8))
+    (h : Src.dtlcp.certificateMsg.unmarshal m data = .ok (m', true)) :
+    Model.CodecDtlcp.decCertificate codesD (Tie.UnmarshalDtlcpCodec.abs data) =
+      .ok (hdrView m'.messageSeq m'.fragmentOffset m'.fragmentLength,
+           ⟨m'.certificates.map Tie.UnmarshalDtlcpCodec.abs⟩) := by
+  have ha := C14_src_certificate_dtlcp m data
+  cases ho : Model.CodecDtlcp.decCertificate codesD (Tie.UnmarshalDtlcpCodec.abs data) with
+  | ok c =>
+    rw [ho] at ha
+    obtain ⟨m2, h2, hv⟩ := ha
+    rw [h] at h2
+    cases h2
+    rw [← hv]
+  | reject =>
+    rw [ho] at ha
+    obtain ⟨m2, h2⟩ := ha
+    rw [h] at h2
+    cases h2
+  | panic => rw [ho] at ha; exact ha.elim
+
+-- non-vacuity: a two-entry Certificate message (message_seq 1) through the model decoder; the same bytes
+-- through the translated decoder are an `example` in Props/C09.lean
+example : Model.CodecDtlcp.decCertificate codesD (Tie.UnmarshalDtlcpCodec.abs
+    [11, 0, 0, 12, 0, 1, 0, 0, 0, 0, 0, 12, 0, 0, 9, 0, 0, 2, 0xaa, 0xbb, 0, 0, 1, 0xcc])
+    = .ok (⟨(0, 1), 0, 12⟩, ⟨[[0xaa, 0xbb], [0xcc]]⟩) := by decide
+
+end SrcDtlcp
 
 end Gotlcp.Props.C14
